@@ -20,7 +20,19 @@ CONFIGS = {
     "tls12_rsa": "cv=3 sv=3 suite=003c",
     "tls13_chacha": "cv=4 sv=4 suite=1303",
     "tls12_ec": "cv=3 sv=3 key=ec suite=c02b",
+    # resumed handshakes: a full handshake first (phase before '|'), then a second session offering the saved id / ticket
+    "tls12_resumed_id": "cv=3 sv=3 | resume=1 keepkeys=1",
+    "tls12_resumed_ticket": "cv=3 sv=3 ticket=1 | resume=1 keepkeys=1",
+    "tls13_resumed_psk": "cv=4 sv=4 ticket=1 | resume=1 keepkeys=1",
 }
+
+
+def newcmd(cfg, seed):
+    """script prefix that creates the session(s) of a configuration"""
+    if "|" in cfg:
+        first, second = [x.strip() for x in cfg.split("|")]
+        return "new %s seed=%d ; hs ; new %s %s seed=%d" % (first, seed, first, second, seed + 1000)
+    return "new %s seed=%d" % (cfg, seed)
 
 SNAP_RE = re.compile(r"v=(\d),sv=(\d),hs=(\d+),f=([ECRW]*),done=(\d),err=(\d+),ed=(\d+):(\d+):(\d+),lb=(\d),ig=(-?\d+),ce=(\d),se=(\d),ae=(\d),bs=(\d+),ms=(\d+)")
 
@@ -129,7 +141,8 @@ def observed_line(step, is_hs):
     post = step.post
     if ob is None:
         ob = ("Handshake:%d" % (1 if step.sent else 0)) if is_hs else "Ignored"
-    return "%s v=%d hs=%d R=%d W=%d E=%d C=%d eds=%d ig=%d lb=%d" % (ob, post["v"], post["hs"], post["R"], post["W"], post["E"], post["C"],
+    # once the session is flagged the handshake state is irrelevant (a handler may have moved it before failing)
+    return "%s v=%d hs=%s R=%d W=%d E=%d C=%d eds=%d ig=%d lb=%d" % (ob, post["v"], "-" if post["E"] else str(post["hs"]), post["R"], post["W"], post["E"], post["C"],
                                                                       post["edseen"], post["ig"], post["lb"])
 
 def describe_genuine(step, in_order=True, modified=False):
@@ -139,13 +152,15 @@ def describe_genuine(step, in_order=True, modified=False):
     d = dict(hdr="ok", outer=m["o"], inner=m["i"] if m["i"] >= 0 else m["o"], l=m["l"])
     d["prot"] = ("good" if (in_order and not modified) else "bad") if sealed else "plain"
     if m["o"] == 20:
-        d["ccs_ok"] = 1 if (m["b0"] == 1 and m["l"] == 1) else 0
+        d["ccs_ok"] = 1 if (sealed or (m["b0"] == 1 and m["l"] == 1)) else 0     # body of a sealed CCS is not visible on the wire
     if m["o"] == 21 and not sealed:
         d["lvl"], d["desc"], d["alert_ok"] = m["b0"], m["b1"], 1 if m["l"] >= 2 else 0
     elif d["inner"] == 21 and step.alerts_in:
         d["lvl"], d["desc"] = step.alerts_in[0]
     if d["inner"] == 23 and step.appdata and step.appdata[0] == "-":
         d["empty"] = 1
+    if sealed and step.pre["v"] == 1 and m["l"] == 17:
+        d["empty"] = 1          # TLS 1.3: tag(16) + inner type only
     return d
 
 def is_hs_record(pre, d):
@@ -166,26 +181,44 @@ class SessRun:
         self.drv = ck.ocaml_driver("drv_sess", extract_vo="Extract/Extract_Sess.vo", gen_ml=["m_sess"])
 
     def run(self, scripts):
-        rc, out, err = self.ck.run_lines(self.h, scripts, timeout=3000)
-        if len(out) != len(scripts):
-            self.ck.log("h_sess produced %d lines for %d scripts (rc=%s) stderr=%s" % (len(out), len(scripts), rc, err[-500:]))
-        return out
+        """run all scripts; if the harness process dies on one of them (a crash inside the library), report that script
+        as a violation (the check must not silently lose the scenarios behind it) and carry on with the rest"""
+        outs, start = [], 0
+        while start < len(scripts):
+            rc, out, err = self.ck.run_lines(self.h, scripts[start:], timeout=3000)
+            outs += out[:len(scripts) - start]
+            if len(out) >= len(scripts) - start:
+                break
+            bad = start + len(out)
+            # the partial line (if any) belongs to the crashing script
+            self.ck.log("h_sess died (rc=%s) on script %d: %s ... stderr=%s" % (rc, bad, scripts[bad][:200], err[-300:]))
+            self.ck.spec_violation("harness-process-died:rc=%s" % rc,
+                                   "the library crashed / the harness process died while running a scripted session (rc=%s)" % rc,
+                                   {"harness": "h_sess", "script": scripts[bad], "stderr": err[-1500:]})
+            outs = outs[:bad] + ["CRASHED"]
+            start = bad + 1
+        if os.environ.get("VERIF_DEBUG"):
+            with open("/var/tmp/sess-debug-%s-%d.txt" % (self.ck.pid, len(scripts)), "w") as f:
+                for a, b in zip(scripts, outs):
+                    f.write(a + "\n  => " + b + "\n")
+        return outs
 
     def legal_trace(self, cfg, seed=1, maxrec=40):
         """direction sequence ('c2s'/'s2c') of the records of a legal handshake of this configuration"""
-        script = "new %s seed=%d" % (cfg, seed)
+        script = newcmd(cfg, seed)
         for _ in range(6):
             script += " ; step c2s 30 ; step s2c 30"
         out = self.run([script])[0]
         seq = []
-        for seg in out.split(" | ")[1:]:
+        nskip = len(script.split(" ; ")) - 12       # segments of the session-creating prefix
+        for seg in out.split(" | ")[nskip:]:
             for st in parse_steps(seg):
                 seq.append("c2s" if st.side == "s" else "s2c")
         return seq, out
 
 
 def prefix_script(cfg, seed, trace, k):
-    s = "new %s seed=%d" % (cfg, seed)
+    s = newcmd(cfg, seed)
     for d in trace[:k]:
         s += " ; step %s" % d
     return s
@@ -198,13 +231,13 @@ def analyse(ck, sr, scripts, outs, tag, inj_desc):
     cases, observed, back = [], [], []
     for si, out in enumerate(outs):
         segs = out.split(" | ")
-        if not segs or not segs[0].startswith("new:0"):
+        if not segs or any(sg.strip().startswith("new:") and not sg.strip().startswith("new:0") for sg in segs):
             ck.count("scenario_setup_failed")
             continue
         inj_i = 0
         cmds = scripts[si].split(" ; ")
         modified = {"c2s": False, "s2c": False}     # head record of that queue was edited by `xor`
-        for ci, seg in enumerate(segs[1:], start=1):
+        for ci, seg in enumerate(segs):
             cmd = cmds[ci].split() if ci < len(cmds) else [""]
             if cmd[0] == "xor" and seg.startswith("xor:ok"):
                 modified[cmd[1]] = True
@@ -233,6 +266,10 @@ def analyse(ck, sr, scripts, outs, tag, inj_desc):
     if sr.drv is None:
         return back
     rc, model, err = ck.run_lines(sr.drv, cases)
+    # the ticket "in limbo" flag is owned by the handshake layer (an oracle in this model): not compared across handshake steps
+    lbnorm = lambda x: re.sub(r" lb=\d", " lb=-", x) if x.startswith("Handshake") else x
+    observed = [lbnorm(x) for x in observed]
+    model = [lbnorm(x) for x in model]
     dis = ck.correspond(tag, cases, observed, model, nontrivial=lambda c, o: not o.startswith("Refuse"))
     classes = {}
     for i in dis:
